@@ -1865,7 +1865,11 @@ func (e *Engine) deleteSeriesRange(seriesKeys [][]byte, min, max int64) error {
 			// If there are multiple fields, they will have the same prefix.  If any field
 			// has values, then we can't delete it from the index.
 			for i < len(deleteKeys) && bytes.HasPrefix(deleteKeys[i], k) {
-				if e.Cache.Values(deleteKeys[i]).Len() > 0 {
+				// The prefix also matches the keys of other series whose tag set
+				// extends this one (cpu,host=a vs. cpu,host=a,region=b): only
+				// look at the fields of this series.
+				if sk, _ := SeriesAndFieldFromCompositeKey(deleteKeys[i]); bytes.Equal(sk, k) &&
+					e.Cache.Values(deleteKeys[i]).Len() > 0 {
 					hasCacheValues = true
 					break
 				}
